@@ -4,7 +4,7 @@
    - an honest dealer's shares pass the check                          (share_check_honest)
    - Feldman commitments determine the shares modulo q                 (feldman_unique)
    - decision rules of the receiver as equivalences                    (complaint_rule, disqualified_rule, resolve_rule, ...)
-   - the complaining receiver's own share is never corrected           (complainer_not_corrected: witness)     *)
+   - a receiver that complained and accepts holds the published, consistent pair (complainer_corrected; fix 3258c3f) *)
 From Coq Require Import ZArith Znumtheory Lia List Bool ZifyBool.
 From LT Require Import Zbase VssModel.
 Import ListNotations.
@@ -269,41 +269,92 @@ Proof.
       destruct (who_of w =? i); apply IH; exact A'.
 Qed.
 
-(* a receiver that returns true after complaints has seen a correct public answer for every complaint of the others *)
-Theorem accept_means_answered p q g h n t i d As s tt streams res sg ta :
-  Forall (fun js => fst js < n) streams ->
-  vss_receive p q g h n t i d As s tt streams res = Some {| vo_ret := true; vo_sigma := sg; vo_tau := ta |} ->
-  answered p q g h As (complaints_from n d streams) res \/ complaints_from n d streams = [].
+Lemma in_ins_sorted i l x : In x (ins_sorted i l) <-> x = i \/ In x l.
 Proof.
-  intros Hn E. unfold vss_receive in E.
-  destruct (recv_complaint _ _ _ _ _ _ _ _) as [own|]; [|discriminate].
-  destruct (disqualified t _); [discriminate|].
-  destruct (0 <? _) eqn:C.
-  - destruct (resolve _ _ _ _ _ _ _ _ _ _ _ _) as [[[bad sg'] ta']|] eqn:R; [|discriminate].
-    injection E as Eb _ _. apply negb_true_iff in Eb. subst bad. left.
-    eapply resolve_rule; [|eauto].
-    unfold complaints_from. apply Forall_forall. intros j Hj. apply in_map_iff in Hj.
-    destruct Hj as (js & <- & Hin). apply filter_In in Hin. destruct Hin as [Hin _].
-    rewrite Forall_forall in Hn. now apply Hn.
-  - right. destruct (complaints_from n d streams); [reflexivity|]. cbn [length] in C. destruct own; lia.
+  induction l as [|j r IH]; cbn [ins_sorted In]; [intuition|].
+  destruct (i <? j); cbn [In]; rewrite ?IH; intuition.
+Qed.
+Lemma length_ins_sorted i l : length (ins_sorted i l) = S (length l).
+Proof. induction l as [|j r IH]; cbn [ins_sorted length]; [reflexivity|]. destruct (i <? j); cbn [length]; now rewrite ?IH. Qed.
+
+Lemma complaints_from_lt n d streams : Forall (fun js => fst js < n) streams -> Forall (fun j => j < n) (complaints_from n d streams).
+Proof.
+  intros Hn. unfold complaints_from. apply Forall_forall. intros j Hj. apply in_map_iff in Hj.
+  destruct Hj as (js & <- & Hin). apply filter_In in Hin. destruct Hin as [Hin _].
+  rewrite Forall_forall in Hn. now apply Hn.
+Qed.
+Lemma recv_from_lt n d i own streams : i < n -> Forall (fun js => fst js < n) streams -> Forall (fun j => j < n) (recv_from n d i own streams).
+Proof.
+  intros Hi Hn. pose proof (complaints_from_lt n d streams Hn) as F. unfold recv_from. destruct own; [|assumption].
+  apply Forall_forall. intros x Hx. apply in_ins_sorted in Hx. destruct Hx as [->|Hx]; [assumption|].
+  rewrite Forall_forall in F. now apply F.
 Qed.
 
-(* REFUTED: "a receiver that complained and accepts the dealer holds a share matching the commitments".
-   The receiver's own complaint is not part of its list `complaints_from` (PedersenVSS.cc:571-576 vs :600-606), so the
-   dealer's public answer is never applied to the complainer's own share.  Witness: p = 23, q = 11, g = 2, h = 3,
-   n = 3, t = 1, receiver 1, dealer 0, f = 5 + 4z, f' = 2 + 7z; the dealer sends sigma = 3 instead of f(2) = 2. *)
-Theorem complainer_not_corrected :
-  exists p q g h n t i d a b s tt streams res o,
-    prime q /\ powm g q p = 1 /\ powm h q p = 1 /\
-    recv_complaint p q g h (commits p g h a b) (i + 1) s tt = Some true /\
-    vss_receive p q g h n t i d (commits p g h a b) s tt streams res = Some o /\
-    vo_ret o = true /\ share_ok p g h (commits p g h a b) (i + 1) (vo_sigma o) (vo_tau o) = Some false.
+(* a receiver that returns true after complaints has seen a correct public answer for every complaint, its own included *)
+Theorem accept_means_answered p q g h n t i d As s tt streams res own sg ta :
+  i < n -> Forall (fun js => fst js < n) streams ->
+  recv_complaint p q g h As (i + 1) s tt = Some own ->
+  vss_receive p q g h n t i d As s tt streams res = Some {| vo_ret := true; vo_sigma := sg; vo_tau := ta |} ->
+  answered p q g h As (recv_from n d i own streams) res \/ recv_from n d i own streams = [].
 Proof.
-  exists 23, 11, 2, 3, 3, 1, 1, 0, [5; 4], [2; 7], 3, 5, [(2, [3])], [1; 2; 5; 3].
-  eexists. split; [|repeat split; try (vm_compute; reflexivity)].
-  apply prime_intro; [lia|]. intros k Hk. apply Zgcd_1_rel_prime.
-  assert (k = 1 \/ k = 2 \/ k = 3 \/ k = 4 \/ k = 5 \/ k = 6 \/ k = 7 \/ k = 8 \/ k = 9 \/ k = 10) as C by lia.
-  repeat (destruct C as [->|C]; [reflexivity|]). subst. reflexivity.
+  intros Hi Hn C E. unfold vss_receive in E. rewrite C in E.
+  destruct (disqualified t _); [discriminate|].
+  destruct (0 <? _) eqn:Cn.
+  - destruct (resolve _ _ _ _ _ _ _ _ _ _ _ _) as [[[bad sg'] ta']|] eqn:R; [|discriminate].
+    injection E as Eb _ _. apply negb_true_iff in Eb. subst bad. left.
+    eapply resolve_rule; [|eauto]. now apply recv_from_lt.
+  - right. unfold recv_from. destruct own; [lia|]. destruct (complaints_from n d streams); [reflexivity|]. cbn [length] in Cn. lia.
+Qed.
+
+(* the pair held after an accepting resolution: if the receiver's index is among the resolved complaints (or its pair was
+   consistent before), the pair it ends with satisfies the check *)
+Lemma resolve_own_pair p q g h n i As from : forall res bad sg ta sg' ta',
+  resolve p q g h n i As from res bad sg ta = Some (false, sg', ta') ->
+  In i from \/ share_ok p g h As (i + 1) sg ta = Some true ->
+  share_ok p g h As (i + 1) sg' ta' = Some true.
+Proof.
+  induction from as [|j from IH]; intros res bad sg ta sg' ta' E H; cbn [resolve] in E.
+  - injection E as _ <- <-. destruct H as [[]|H]; exact H.
+  - destruct res as [|w [|f [|b res']]]; try discriminate.
+    destruct ((n <=? who_of w) || negb (who_of w =? j)) eqn:W; [discriminate|].
+    apply orb_false_elim in W. destruct W as [_ W2]. apply negb_false_iff in W2. apply Z.eqb_eq in W2.
+    destruct (share_ok p g h As (who_of w + 1) _ _) as [[|]|] eqn:S; [| |discriminate].
+    + destruct (Z.eqb_spec (who_of w) i) as [Ei|Ei].
+      * eapply IH; [exact E|]. right. rewrite <- Ei. exact S.
+      * eapply IH; [exact E|]. destruct H as [[Hj|Hin]|H]; [congruence|now left|now right].
+    + apply resolve_bad_sticky in E. discriminate.
+Qed.
+
+(* "forced to publish consistent ones": a receiver that complained and accepts the dealer holds a pair matching the commitments *)
+Theorem complainer_corrected p q g h n t i d As s tt streams res o :
+  recv_complaint p q g h As (i + 1) s tt = Some true ->
+  vss_receive p q g h n t i d As s tt streams res = Some o -> vo_ret o = true ->
+  share_ok p g h As (i + 1) (vo_sigma o) (vo_tau o) = Some true.
+Proof.
+  intros C E Hr. unfold vss_receive in E. rewrite C in E.
+  destruct (disqualified t _); [injection E as <-; discriminate|].
+  destruct (0 <? _) eqn:Cn; [|lia].
+  destruct (resolve _ _ _ _ _ _ _ _ _ _ _ _) as [[[bad sg'] ta']|] eqn:R; [|discriminate].
+  injection E as <-. cbn [vo_ret vo_sigma vo_tau] in *. apply negb_true_iff in Hr. subst bad.
+  eapply resolve_own_pair; [exact R|]. left. unfold recv_from. apply in_ins_sorted. now left.
+Qed.
+
+(* a receiver that did not complain keeps a consistent pair *)
+Theorem noncomplainer_consistent p q g h n t i d As s tt streams res o :
+  recv_complaint p q g h As (i + 1) s tt = Some false ->
+  vss_receive p q g h n t i d As s tt streams res = Some o -> vo_ret o = true ->
+  share_ok p g h As (i + 1) (vo_sigma o) (vo_tau o) = Some true.
+Proof.
+  intros C E Hr. pose proof C as C'. unfold recv_complaint in C'.
+  destruct (share_ok p g h As (i + 1) _ _) as [ok|] eqn:S; [|discriminate].
+  injection C' as C'. apply orb_false_elim in C'. destruct C' as [_ C']. apply negb_false_iff in C'. subst ok.
+  unfold vss_receive in E. rewrite C in E.
+  destruct (disqualified t _); [injection E as <-; discriminate|].
+  destruct (0 <? _).
+  - destruct (resolve _ _ _ _ _ _ _ _ _ _ _ _) as [[[bad sg'] ta']|] eqn:R; [|discriminate].
+    injection E as <-. cbn [vo_ret vo_sigma vo_tau] in *. apply negb_true_iff in Hr. subst bad.
+    eapply resolve_own_pair; [exact R|]. right. exact S.
+  - injection E as <-. exact S.
 Qed.
 
 (* the flag computed by the public resolution does not depend on the receiver's identity or current pair *)
@@ -320,17 +371,25 @@ Proof.
     + eapply IH; eauto.
 Qed.
 
-(* the verdict of a receiver depends on its own pair only through its complaint bit *)
-Theorem verdict_from_broadcasts p q g h n t i1 i2 d As s1 t1 s2 t2 streams res o1 o2 c :
-  recv_complaint p q g h As (i1 + 1) s1 t1 = Some c -> recv_complaint p q g h As (i2 + 1) s2 t2 = Some c ->
-  vss_receive p q g h n t i1 d As s1 t1 streams res = Some o1 ->
-  vss_receive p q g h n t i2 d As s2 t2 streams res = Some o2 -> vo_ret o1 = vo_ret o2.
+Lemma recv_from_length n d i own streams :
+  Z.of_nat (length (recv_from n d i own streams)) = (if own then 1 else 0) + Z.of_nat (length (complaints_from n d streams)).
+Proof. unfold recv_from. destruct own; [rewrite length_ins_sorted|]; lia. Qed.
+
+(* qualification is a function of broadcast values only: the verdict depends on the sorted list of complaining parties (every
+   complaint, the receiver's own included, is a broadcast) and on the dealer's broadcast answer - not on who evaluates it *)
+Theorem verdict_from_broadcasts p q g h n t i1 i2 d As s1 t1 s2 t2 streams1 streams2 res o1 o2 c1 c2 :
+  recv_complaint p q g h As (i1 + 1) s1 t1 = Some c1 -> recv_complaint p q g h As (i2 + 1) s2 t2 = Some c2 ->
+  recv_from n d i1 c1 streams1 = recv_from n d i2 c2 streams2 ->
+  vss_receive p q g h n t i1 d As s1 t1 streams1 res = Some o1 ->
+  vss_receive p q g h n t i2 d As s2 t2 streams2 res = Some o2 -> vo_ret o1 = vo_ret o2.
 Proof.
-  intros C1 C2 E1 E2. unfold vss_receive in *. rewrite C1 in E1. rewrite C2 in E2.
+  intros C1 C2 F E1 E2. unfold vss_receive in *. rewrite C1 in E1. rewrite C2 in E2.
+  pose proof (recv_from_length n d i1 c1 streams1) as L1. pose proof (recv_from_length n d i2 c2 streams2) as L2.
+  rewrite F in L1. rewrite <- L1 in E1. rewrite <- L2 in E2. rewrite F in E1.
   destruct (disqualified t _); [injection E1 as <-; injection E2 as <-; reflexivity|].
   destruct (0 <? _); [|injection E1 as <-; injection E2 as <-; reflexivity].
   destruct (resolve p q g h n i1 _ _ _ _ _ _) as [[[b1 sg1] ta1]|] eqn:R1; [|discriminate].
   destruct (resolve p q g h n i2 _ _ _ _ _ _) as [[[b2 sg2] ta2]|] eqn:R2; [|discriminate].
   injection E1 as <-. injection E2 as <-. cbn [vo_ret].
-  pose proof (resolve_flag_indep _ _ _ _ _ _ _ _ _ _ _ _ _ _ _ _ _ R1 R2) as F. cbn [fst] in F. now rewrite F.
+  pose proof (resolve_flag_indep _ _ _ _ _ _ _ _ _ _ _ _ _ _ _ _ _ R1 R2) as Fl. cbn [fst] in Fl. now rewrite Fl.
 Qed.
